@@ -53,7 +53,9 @@ func c07Seen(b, changed string) string {
 
 var c07Behaviours = []string{"none", "trusted", "untrusted", "expired", "wrong-eku", "cv-missing", "cv-wrong-key", "cv-other-transcript", "enc-cert-first-cv-missing", "recent", "late", "enc-untrusted", "enc-expired",
 	// a signing certificate that does not verify next to a good encryption certificate
-	"sig-untrusted-enc-ok", "sig-expired-enc-ok", "sig-wrongeku-enc-ok"}
+	"sig-untrusted-enc-ok", "sig-expired-enc-ok", "sig-wrongeku-enc-ok",
+	// the Certificate message is left out altogether (not sent empty) although one was requested
+	"cert-msg-omitted"}
 
 // c07Canon: a bad signing certificate is judged the same whatever encryption certificate accompanies it.
 func c07Canon(b string) string {
@@ -170,6 +172,8 @@ func c07Model(policy int, behaviour string, suite uint16) bool {
 	switch behaviour {
 	case "cv-missing", "cv-wrong-key", "cv-other-transcript", "enc-cert-first-cv-missing":
 		return false // possession of the certificate's key was not proved
+	case "cert-msg-omitted":
+		return false // a requested Certificate message is answered, if only with an empty list
 	}
 	if policy >= 3 {
 		switch behaviour {
@@ -201,7 +205,7 @@ func c07Cert(b string) string {
 	case "late":
 		// in date from mid-2029: valid at the configured time only, not yet on the wall clock
 		return "client_late"
-	case "none":
+	case "none", "cert-msg-omitted":
 		return ""
 	}
 	return "client"
@@ -313,7 +317,7 @@ func (c07) Run(c *Case, src *vs.Src) *Result {
 					for _, k := range pr.Received {
 						requested = requested || k == "CertificateRequest"
 					}
-					if requested {
+					if requested && p.Behaviour != "cert-msg-omitted" {
 						rest = append(rest, "CERT")
 					}
 					rest = append(rest, "CKE")
@@ -383,7 +387,7 @@ func (c07) Run(c *Case, src *vs.Src) *Result {
 		// what the server reports must be backed by what was checked
 		if len(co.SrvCS.Peer) > 0 {
 			switch p.Behaviour {
-			case "cv-missing", "cv-wrong-key", "cv-other-transcript", "none", "enc-cert-first-cv-missing":
+			case "cv-missing", "cv-wrong-key", "cv-other-transcript", "none", "enc-cert-first-cv-missing", "cert-msg-omitted":
 				r.Violate("peer-certs-unproven", sigp+" peer-certs-without-proof", "server reports %d peer certificates for behaviour %q", len(co.SrvCS.Peer), p.Behaviour)
 			}
 		}
